@@ -117,6 +117,9 @@ pub fn provenance_expectation(m: &Message, node: &Node, now_ns: i128, script: &P
     if m.logical.body_defect && node.cfg.fold {
         return Expect::Unasserted;
     }
+    if m.quirks.auth_pairs_in_body && !node.cfg.fold {
+        return Expect::Unasserted;
+    }
     if !mode_ok {
         // delivered to a node whose canonicalisation options the signer was not told about
         return Expect::Unasserted;
@@ -163,6 +166,8 @@ pub struct Mix {
     pub prov_error_one_in: u64,
     pub prov_pending: u32,
     pub rotate_one_in: u64,
+    /// body transport faults (pending polls, connection reset) 1/n deliveries
+    pub body_fault_one_in: u64,
     pub exec: ExecPolicy,
     pub max_concurrent: usize,
     pub node: NodeKnobs,
@@ -197,6 +202,7 @@ impl Mix {
             prov_error_one_in: 0,
             prov_pending: 1,
             rotate_one_in: 0,
+            body_fault_one_in: 0,
             exec: ExecPolicy {
                 spurious_one_in: 0,
                 cancel_one_in: 0,
@@ -246,11 +252,13 @@ pub struct DeliveryCtx<'a> {
     pub events: &'a [libi::Event],
     pub logs: &'a [crate::logger::Rec],
     pub control: Option<&'a ValOut>,
+    pub body_failed: bool,
     /// outcome of the untouched, canonically spelled original at its home node (None = not run)
     pub baseline: Option<&'a ValOut>,
 }
 
 pub struct Planned {
+    pub body_script: libi::BodyScript,
     /// the message as issued, before the network touched it
     pub origin: Option<Message>,
     pub msg: Message,
@@ -451,7 +459,18 @@ pub fn run_world(t: &mut Tape, mix: &Mix, judge: Judge) -> RunOut {
             });
             let script = draw_script(t, mix, &mut out);
             let task = t.below(ntasks);
+            let mut body_script = libi::BodyScript::default();
+            if mix.body_fault_one_in > 0 && t.chance(mix.body_fault_one_in) {
+                body_script.pending = 1 + t.below(3) as u32;
+                body_script.fail = t.chance(3);
+                out.fault(if body_script.fail {
+                    "body_transport_error"
+                } else {
+                    "body_transport_pending"
+                });
+            }
             planned.push(Planned {
+                body_script,
                 origin: Some(m0.clone()),
                 msg: m,
                 node_ix,
@@ -508,14 +527,22 @@ pub fn execute_and_judge(t: &mut Tape, mix: &Mix, accounts: &[Account], nodes: &
         });
         let (v, det) = refm::rverdict(&req, &node.cfg, p.now_ns, &mut rp);
         drop(rp);
-        let pe = provenance_expectation(&p.msg, node, p.now_ns, &p.script, accounts);
+        let mut pe = provenance_expectation(&p.msg, node, p.now_ns, &p.script, accounts);
+        let mut v = v;
+        if p.body_script.fail {
+            // the request body never arrives: nothing about the request itself is decided
+            v = Verdict::Unspecified("body transport failed");
+            pe = Expect::Unasserted;
+        }
         expected.push(Some((v, det, pe)));
         {
             let mut sh = shared.lock().unwrap();
             while sh.scripts.len() <= val {
                 sh.scripts.push(ProvScript::default());
+                sh.body_scripts.push(libi::BodyScript::default());
             }
             sh.scripts[val] = p.script.clone();
+            sh.body_scripts[val] = p.body_script.clone();
         }
         tasks[p.task].push(Job {
             req,
@@ -593,7 +620,7 @@ pub fn execute_and_judge(t: &mut Tape, mix: &Mix, accounts: &[Account], nodes: &
             }
             _ => None,
         };
-        let control = if mix.control_twin && matches!(o, ValOut::Ok(_) | ValOut::Err(_)) {
+        let control = if mix.control_twin && !p.body_script.fail && matches!(o, ValOut::Ok(_) | ValOut::Err(_)) {
             p.wire.to_request().ok().map(|req| libi::validate_control(req, node, p.now_ns, accounts, &p.script, cache_level))
         } else {
             None
@@ -613,6 +640,7 @@ pub fn execute_and_judge(t: &mut Tape, mix: &Mix, accounts: &[Account], nodes: &
             events: &my_events,
             logs: &logs,
             control: control.as_ref(),
+            body_failed: p.body_script.fail,
             baseline: baseline.as_ref(),
         };
         common_probes(&cx, out);
@@ -648,6 +676,15 @@ pub fn common_probes(cx: &DeliveryCtx, out: &mut RunOut) {
         }
         if cx.msg.auth.token.is_some() {
             out.probe("accept_token");
+        }
+        if cx.msg.quirks.auth_pairs_in_body && cx.detail.folded {
+            out.probe("accept_auth_params_in_form_body");
+        }
+        if cx.msg.auth.signed.iter().any(|h| h == ":authority") {
+            out.probe("accept_authority_pseudo_header");
+        }
+        if cx.msg.logical.absolute.is_some() {
+            out.probe("accept_absolute_form_target");
         }
     }
     if let Verdict::Refuse(r) = cx.expected {
